@@ -351,6 +351,26 @@ def run(tier):
                 continue
         keep.append((kind, where, detail, replay))
     v.violations = keep
+    # packets that are sent AGAIN (PUBLISH with DUP, PUBREL after a lost PUBCOMP, repeated SUBSCRIBE / UNSUBSCRIBE,
+    # re-subscriptions) and acknowledgements of inbound traffic come from other code paths than first transmissions: the
+    # retrying client is driven through cuts and swallowed acknowledgements at every position, the broker model's
+    # independent decoder judges every packet (observer C05_PacketsWellFormed, spec/MqttEnv.tla)
+    import retry_family as rf
+    fam = rf.Family(PID)
+    fam.verd = v
+    P, S, U = rf.PUB, rf.SUB, rf.UNSUB
+    rsc = []
+    for w in ([P(1)], [P(2)], [P(0), P(2)], [S(("x", 1), ("y", 2))], [U("x", "y")], [S(("x", 2)), P(2), U("x")], [P(2, True), P(1, True)]):
+        for k in range(2, 7):
+            for o in ("cutBefore", "cutAfter"):
+                rsc.append(rf.scenario("wf-%d" % len(rsc), w, ["conn"] * len(w), [{"k": k, "o": o}], connacks=[{}, {"sp": "false"}] if k % 2 else []))
+                rsc.append(rf.scenario("wf-%d" % len(rsc), w, ["conn"] * len(w), [{"k": k, "o": o}, {"k": k + 2, "o": "cutAfter"}]))
+            for o in ("dropReq", "dropAck"):
+                rsc.append(rf.scenario("wf-%d" % len(rsc), w, ["conn"] * len(w), [{"k": k, "o": o}], opts={"respTimeoutMs": 40, "connTimeoutMs": 80}))
+    for q in (1, 2):
+        inbound = [{"g": 1, "after": 0, "q": q, "tag": 101}, {"g": 2, "after": 0, "q": q, "tag": 102, "dup": True}]
+        rsc.append(rf.scenario("wf-%d" % len(rsc), [{"k": "handle", "h": 1}, P(1)], ["pre", "conn"], [{"k": 2, "o": "cutAfter"}], inbound=inbound))
+    fam.execute(binary, rsc)
     rc = v.finish()
     nlens = len(vlib.ndjson_read(table_path))
     cov = {
